@@ -183,7 +183,7 @@ func renderSave(s *saveRec, tb *Table, scratch string, tags map[string]bool) (st
 		}
 		ob.Reads = append(ob.Reads, id)
 	}
-	term := fmt.Sprintf("Sv %s [] [%s] %s", coqStr(ob.Now), strings.Join(dirs, ";"), coqZs(ob.Reads))
+	term := fmt.Sprintf("Sv %s [] [%s] %s", coqVal(ob.Now), strings.Join(dirs, ";"), coqZs(ob.Reads))
 	return term, ob
 }
 
@@ -283,7 +283,7 @@ func runDirect(c Case, scratch string, tags map[string]bool) (string, interface{
 		case "U":
 			st := buildState(o.Tag, o.Val, o.Typed)
 			last[o.Tag] = st
-			terms = append(terms, fmt.Sprintf("Ux %s %s %s", coqStr(o.Tag), coqStr(canonSent(o.Tag, st)), coqStr(mustJSON(st))))
+			terms = append(terms, fmt.Sprintf("Ux %s %s %s", coqStr(o.Tag), coqVal(canonSent(o.Tag, st)), coqVal(mustJSON(st))))
 			impl = append(impl, "set")
 		case "S":
 			n := len(rec.saves)
@@ -297,6 +297,10 @@ func runDirect(c Case, scratch string, tags map[string]bool) (string, interface{
 			if ob.Reach == 4 {
 				completed++
 			}
+		case "R":
+			t, ob := renderRestart(scratch, readDir(dir), tags)
+			terms = append(terms, t)
+			impl = append(impl, ob)
 		}
 	}
 	term := fmt.Sprintf("mk %s %s\n  %s\n  %s", coqPairs(cfg), dir0, tb.coq(), "["+strings.Join(terms, ";\n   ")+"]")
@@ -446,11 +450,16 @@ func runHist(c Case, scratch string, tags map[string]bool) (string, interface{},
 
 	// the sequence of everything put on the channel, and where the harness waited
 	var sentLog []sentMsg
-	type waitRec struct {
-		pos   int
-		saved bool
+	// things the harness did between two updates: waits and restarts, with the number of saves that
+	// had completed when they began (so that they are rendered in the order in which they happened)
+	type marker struct {
+		pos    int
+		nsaves int
+		term   string
+		impl   interface{}
 	}
-	var waits []waitRec
+	var markers []marker
+
 	syncNo := 0
 	put := func(m sentMsg, state interface{}) {
 		m.obj = canonSent(m.tag, state)
@@ -522,6 +531,12 @@ func runHist(c Case, scratch string, tags map[string]bool) (string, interface{},
 			deadline := time.Now().Add(12 * time.Second)
 			saved := false
 			rec.mu.Lock()
+			before := len(rec.saves)
+			for _, s := range rec.saves {
+				if s.pos == pos { // it began right after the sentinel, before this wait: the wait sees it done
+					before--
+				}
+			}
 			for {
 				for _, s := range rec.saves {
 					if s.pos == pos {
@@ -536,10 +551,34 @@ func runHist(c Case, scratch string, tags map[string]bool) (string, interface{},
 				rec.mu.Lock()
 			}
 			rec.mu.Unlock()
-			waits = append(waits, waitRec{pos: pos, saved: saved})
+			markers = append(markers, marker{pos: pos, nsaves: before, term: "Wt " + boolStr(saved), impl: map[string]bool{"wait_saved": saved}})
 			if !saved {
 				tags["wait-without-save"] = true
 			}
+		case "R":
+			closeBatch()
+			if broken {
+				break
+			}
+			// the directory between two saves (never while one is in progress)
+			var snap Snap
+			var n int
+			for try := 0; ; try++ {
+				rec.mu.Lock()
+				busy := rec.cur != nil
+				n = len(rec.saves)
+				rec.mu.Unlock()
+				snap = readDir(dir)
+				rec.mu.Lock()
+				quiet := !busy && rec.cur == nil && n == len(rec.saves)
+				rec.mu.Unlock()
+				if quiet || try > 1000 {
+					break
+				}
+				time.Sleep(time.Millisecond)
+			}
+			t, ob := renderRestart(scratch, snap, tags)
+			markers = append(markers, marker{pos: len(sentLog), nsaves: n, term: t, impl: ob})
 		}
 	}
 	if !broken {
@@ -584,32 +623,43 @@ func runHist(c Case, scratch string, tags map[string]bool) (string, interface{},
 	var terms []string
 	var impl []interface{}
 	nontrivial := false
+	rec.mu.Lock()
+	saves := append([]*saveRec(nil), rec.saves...)
+	rec.mu.Unlock()
+	nextSave, nextMarker := 0, 0
 	emitSaves := func(pos int) {
-		rec.mu.Lock()
-		saves := append([]*saveRec(nil), rec.saves...)
-		rec.mu.Unlock()
-		for _, w := range waits {
-			if w.pos == pos {
-				terms = append(terms, "Wt "+boolStr(w.saved))
-				impl = append(impl, map[string]bool{"wait_saved": w.saved})
+		for {
+			if nextMarker < len(markers) && markers[nextMarker].pos == pos && markers[nextMarker].nsaves <= nextSave {
+				terms = append(terms, markers[nextMarker].term)
+				impl = append(impl, markers[nextMarker].impl)
+				nextMarker++
+				continue
 			}
-		}
-		for _, s := range saves {
-			if s.pos == pos {
-				t, ob := renderSave(s, tb, scratch, tags)
+			if nextSave < len(saves) && saves[nextSave].pos <= pos {
+				t, ob := renderSave(saves[nextSave], tb, scratch, tags)
 				terms = append(terms, t)
 				impl = append(impl, ob)
 				if ob.Reach == 4 {
 					nontrivial = true
 				}
+				nextSave++
+				continue
 			}
+			if nextMarker < len(markers) && markers[nextMarker].pos == pos {
+				// a marker that saw more saves than were recorded: cannot happen; render it anyway
+				terms = append(terms, markers[nextMarker].term)
+				impl = append(impl, markers[nextMarker].impl)
+				nextMarker++
+				continue
+			}
+			return
 		}
 	}
 	for k, m := range sentLog {
 		emitSaves(k)
 		switch {
 		case m.shake:
-			terms = append(terms, fmt.Sprintf("Ux %s %s %s", coqStr(m.tag), coqStr(m.obj), coqStr(m.text)))
+			terms = append(terms, fmt.Sprintf("Ux %s %s %s", coqStr(m.tag), coqVal(m.obj), coqVal(m.text)))
 		case m.tag == "SENDALL":
 			all := append(append([]received(nil), pubs[k]...), extra[k]...)
 			terms = append(terms, "SA "+renderPub(all))
@@ -620,7 +670,7 @@ func runHist(c Case, scratch string, tags map[string]bool) (string, interface{},
 				// the sentinel was received (that is how the batch was closed)
 				got = append([]received{{m.tag, m.text}}, extra[k]...)
 			}
-			terms = append(terms, fmt.Sprintf("U %s %s %s %s", coqStr(m.tag), coqStr(m.obj), coqStr(m.text), renderPub(got)))
+			terms = append(terms, fmt.Sprintf("U %s %s %s %s", coqStr(m.tag), coqVal(m.obj), coqVal(m.text), renderPub(got)))
 			if !m.sync {
 				impl = append(impl, map[string]interface{}{"update": m.tag, "published": all2json(got)})
 			}
